@@ -34,7 +34,7 @@ ghost var handledCount int   // how many handlers ran
 func New(span tracing.Span) (ctx *Context)
   trusted
   flag allocates
-  modifies outResp
+  modifies outResp, outRespTyp
   ensures ctx != nil && fresh(ctx) && ctx.span == span && outResp == 0
 
 func (ctx *Context) SetRequest(ns string, req protocols.Request)
